@@ -286,49 +286,204 @@ async fn write_msg<S: AsyncWrite + Unpin>(io: &mut S, m: &[u8]) -> Result<(), St
     io.flush().await.map_err(|e| e.to_string())
 }
 
-/// Run the rogue side. Returns the remote payload it received (not verified).
-pub async fn run<S: AsyncRead + AsyncWrite + Unpin>(mut io: S, dialer: bool, pv: String, conc: usize, ids: Ids, seed: u64) -> Result<Vec<u8>, String> {
+/// What a snow-based endpoint sends as its identity payload.
+pub enum Pl {
+    /// forged / odd payload variant `pv` (see [`payload`])
+    Variant(String, usize, Ids),
+    /// these exact bytes (a payload observed elsewhere)
+    Fixed(Vec<u8>),
+    /// the honest payload of this identity for the session's static key
+    HonestFor(SigningKey),
+}
+
+pub struct Spec {
+    /// static DH private key to use (peers like rust-libp2p keep theirs for their lifetime); fresh if None
+    pub static_priv: Option<[u8; 32]>,
+    pub pl: Pl,
+}
+
+fn builder<'a>() -> snow::Builder<'a> {
+    snow::Builder::with_resolver("Noise_XX_25519_ChaChaPoly_SHA256".parse().unwrap(), Box::new(Resolver))
+}
+
+pub fn static_public(private: &[u8; 32]) -> [u8; 32] {
+    x25519_dalek::x25519(*private, x25519_dalek::X25519_BASEPOINT_BYTES)
+}
+
+pub fn honest_payload(id: &SigningKey, static_pk: &[u8]) -> Vec<u8> {
+    let sig = id.sign(&[PREFIX, static_pk].concat()).to_bytes().to_vec();
+    [pb_bytes(1, &key_pb(&id.verifying_key().to_bytes())), pb_bytes(2, &sig)].concat()
+}
+
+/// A complete Noise XX handshake of a snow-based endpoint over `io`.
+/// Returns (remote payload as received, not verified; transport state; own payload as sent).
+pub async fn handshake_snow<S: AsyncRead + AsyncWrite + Unpin>(
+    io: &mut S,
+    dialer: bool,
+    spec: Spec,
+    seed: u64,
+) -> Result<(Vec<u8>, snow::TransportState, Vec<u8>), String> {
     let mut rng = StdRng::seed_from_u64(seed);
-    let builder = snow::Builder::with_resolver("Noise_XX_25519_ChaChaPoly_SHA256".parse().unwrap(), Box::new(Resolver));
-    let mut kp = builder.generate_keypair().map_err(|e| e.to_string())?;
-    let pl = if pv == "weakKey" {
-        // grind static keys until a forgery exists for the advertised small-order key
-        let mut tries = 0;
-        loop {
-            if let Some(p) = weak_payload(conc, &kp.public) {
-                break p;
-            }
-            tries += 1;
-            if tries > 2000 {
-                return Err("no forgery found".into());
-            }
-            kp = builder.generate_keypair().map_err(|e| e.to_string())?;
-        }
-    } else {
-        payload(&pv, conc, &ids, &kp.public, &mut rng)
+    let mut kp = match spec.static_priv {
+        Some(sk) => snow::Keypair { private: sk.to_vec(), public: static_public(&sk).to_vec() },
+        None => builder().generate_keypair().map_err(|e| e.to_string())?,
     };
-    let builder = snow::Builder::with_resolver("Noise_XX_25519_ChaChaPoly_SHA256".parse().unwrap(), Box::new(Resolver))
-        .local_private_key(&kp.private);
+    let pl = match spec.pl {
+        Pl::Fixed(b) => b,
+        Pl::HonestFor(id) => honest_payload(&id, &kp.public),
+        Pl::Variant(pv, conc, ids) =>
+            if pv == "weakKey" {
+                // grind static keys until a forgery exists for the advertised small-order key
+                let mut tries = 0;
+                loop {
+                    if let Some(p) = weak_payload(conc, &kp.public) {
+                        break p;
+                    }
+                    tries += 1;
+                    if tries > 2000 {
+                        return Err("no forgery found".into());
+                    }
+                    kp = builder().generate_keypair().map_err(|e| e.to_string())?;
+                }
+            } else {
+                payload(&pv, conc, &ids, &kp.public, &mut rng)
+            },
+    };
+    let b = builder().local_private_key(&kp.private);
     let mut buf = vec![0u8; 4096];
     let mut out = vec![0u8; 4096];
     if dialer {
-        let mut hs = builder.build_initiator().map_err(|e| e.to_string())?;
+        let mut hs = b.build_initiator().map_err(|e| e.to_string())?;
         let n = hs.write_message(&[], &mut buf).map_err(|e| e.to_string())?;
-        write_msg(&mut io, &buf[..n]).await?;
-        let m2 = read_msg(&mut io).await?;
+        write_msg(io, &buf[..n]).await?;
+        let m2 = read_msg(io).await?;
         let n = hs.read_message(&m2, &mut out).map_err(|e| e.to_string())?;
         let remote = out[..n].to_vec();
         let n = hs.write_message(&pl, &mut buf).map_err(|e| e.to_string())?;
-        write_msg(&mut io, &buf[..n]).await?;
-        Ok(remote)
+        write_msg(io, &buf[..n]).await?;
+        Ok((remote, hs.into_transport_mode().map_err(|e| e.to_string())?, pl))
     } else {
-        let mut hs = builder.build_responder().map_err(|e| e.to_string())?;
-        let m1 = read_msg(&mut io).await?;
+        let mut hs = b.build_responder().map_err(|e| e.to_string())?;
+        let m1 = read_msg(io).await?;
         hs.read_message(&m1, &mut out).map_err(|e| e.to_string())?;
         let n = hs.write_message(&pl, &mut buf).map_err(|e| e.to_string())?;
-        write_msg(&mut io, &buf[..n]).await?;
-        let m3 = read_msg(&mut io).await?;
+        write_msg(io, &buf[..n]).await?;
+        let m3 = read_msg(io).await?;
         let n = hs.read_message(&m3, &mut out).map_err(|e| e.to_string())?;
-        Ok(out[..n].to_vec())
+        Ok((out[..n].to_vec(), hs.into_transport_mode().map_err(|e| e.to_string())?, pl))
     }
+}
+
+/// Run the rogue side. Returns the remote payload it received (not verified).
+pub async fn run<S: AsyncRead + AsyncWrite + Unpin>(mut io: S, dialer: bool, pv: String, conc: usize, ids: Ids, seed: u64) -> Result<Vec<u8>, String> {
+    handshake_snow(&mut io, dialer, Spec { static_priv: None, pl: Pl::Variant(pv, conc, ids) }, seed).await.map(|r| r.0)
+}
+
+// ---- the rest of litep2p's connection negotiation, spoken by the snow endpoint over TCP:
+// multistream-select (`/noise` in clear, `/yamux/1.0.0` inside the Noise transport)
+
+const MSS: &[u8] = b"/multistream/1.0.0\n";
+
+fn mss_msg(p: &[u8]) -> Vec<u8> {
+    let mut v = vec![p.len() as u8]; // all messages are < 128 bytes: one varint byte
+    v.extend_from_slice(p);
+    v
+}
+
+/// plain or Noise-transport byte channel
+pub enum Chan<'a, S> {
+    Plain(&'a mut S),
+    Noise(&'a mut S, &'a mut snow::TransportState),
+}
+
+impl<S: AsyncRead + AsyncWrite + Unpin> Chan<'_, S> {
+    async fn send(&mut self, data: &[u8]) -> Result<(), String> {
+        match self {
+            Chan::Plain(io) => {
+                io.write_all(data).await.map_err(|e| e.to_string())?;
+                io.flush().await.map_err(|e| e.to_string())
+            }
+            Chan::Noise(io, ts) => {
+                let mut ct = vec![0u8; data.len() + 16];
+                let n = ts.write_message(data, &mut ct).map_err(|e| e.to_string())?;
+                write_msg(*io, &ct[..n]).await
+            }
+        }
+    }
+    async fn recv(&mut self) -> Result<Vec<u8>, String> {
+        match self {
+            Chan::Plain(io) => {
+                let mut b = vec![0u8; 256];
+                let n = io.read(&mut b).await.map_err(|e| e.to_string())?;
+                if n == 0 {
+                    return Err("eof".into());
+                }
+                b.truncate(n);
+                Ok(b)
+            }
+            Chan::Noise(io, ts) => {
+                let ct = read_msg(*io).await?;
+                let mut pt = vec![0u8; ct.len()];
+                let n = ts.read_message(&ct, &mut pt).map_err(|e| e.to_string())?;
+                pt.truncate(n);
+                Ok(pt)
+            }
+        }
+    }
+    /// receive until `n` complete multistream messages are buffered; returns them
+    async fn recv_msgs(&mut self, acc: &mut Vec<u8>, n: usize) -> Result<Vec<Vec<u8>>, String> {
+        loop {
+            let mut msgs = vec![];
+            let mut i = 0;
+            while i < acc.len() {
+                let l = acc[i] as usize;
+                if i + 1 + l > acc.len() {
+                    break;
+                }
+                msgs.push(acc[i + 1..i + 1 + l].to_vec());
+                i += 1 + l;
+            }
+            if msgs.len() >= n {
+                return Ok(msgs);
+            }
+            let more = self.recv().await?;
+            acc.extend_from_slice(&more);
+        }
+    }
+}
+
+/// multistream-select for exactly one protocol
+pub async fn mss<S: AsyncRead + AsyncWrite + Unpin>(mut ch: Chan<'_, S>, dialer: bool, proto: &str) -> Result<(), String> {
+    let line = format!("{proto}\n").into_bytes();
+    let mut acc = vec![];
+    if dialer {
+        ch.send(&[mss_msg(MSS), mss_msg(&line)].concat()).await?;
+        let msgs = ch.recv_msgs(&mut acc, 2).await?;
+        if msgs[0] != MSS || msgs[1] != line {
+            return Err(format!("multistream-select: unexpected reply {:?}", msgs));
+        }
+    } else {
+        let msgs = ch.recv_msgs(&mut acc, 1).await?;
+        if msgs[0] != MSS {
+            return Err("multistream-select: bad header".into());
+        }
+        ch.send(&mss_msg(MSS)).await?;
+        let msgs = ch.recv_msgs(&mut acc, 2).await?;
+        if msgs[1] != line {
+            return Err(format!("multistream-select: unexpected proposal {:?}", msgs[1]));
+        }
+        ch.send(&mss_msg(&line)).await?;
+    }
+    Ok(())
+}
+
+/// The whole connection negotiation of a snow-based peer towards a real litep2p `negotiate_connection`.
+pub async fn negotiate_snow<S: AsyncRead + AsyncWrite + Unpin>(mut io: S, dialer: bool, spec: Spec, seed: u64) -> Result<(), String> {
+    mss(Chan::Plain(&mut io), dialer, "/noise").await?;
+    let (_, mut ts, _) = handshake_snow(&mut io, dialer, spec, seed).await?;
+    mss(Chan::Noise(&mut io, &mut ts), dialer, "/yamux/1.0.0").await?;
+    // keep the socket open until the other side is done with it
+    let mut b = [0u8; 1];
+    let _ = io.read(&mut b).await;
+    Ok(())
 }
